@@ -15,19 +15,19 @@ package tree
 // the root obtained by hashing a leaf upwards with the siblings of a proof, along the bits of the index
 //@ spec fn foldUp(leaf Hash, proof []Hash, idx uint32, h int) Hash = ite(h <= 0, leaf, ite(bitAt(idx, h-1), H(proof[h-1], foldUp(leaf, proof, idx, h-1)), H(foldUp(leaf, proof, idx, h-1), proof[h-1])))
 
-//@ func newTreeNode
+//@ func newTreeNode (left, right)
 //@   props C01 C08 C11
 //@   definitional
 //@   ensures[node] result.Hash == H(left, right) && result.Left == left && result.Right == right
 
-//@ func generateZeroHashes
+//@ func generateZeroHashes (height)
 //@   props C01 C08 C11
 //@   requires height <= 64
 //@   ensures[zero-hashes] len(result) == height + 1 && forall(k, 0, height + 1, result[k] == zeroAt(k))
 //@   loop 0 invariant 1 <= i && i <= height + 1 && len(zeroHashes) == i && off(zeroHashes) == 0
 //@   loop 0 invariant forall(k, 0, i, zeroHashes[k] == zeroAt(k))
 
-//@ func CalculateRoot
+//@ func CalculateRoot (leafHash, proof, index)
 //@   props C08 C09 C12
 //@   ensures[fold] result == foldUp(leafHash, proof, index, 32)
 //@   loop 0 unroll 32
@@ -54,7 +54,7 @@ package tree
 //@   ensures result == nil ==> rhtHas(caller.t)[caller.nodeHash] && cast(dst, *types.TreeNode).Hash == caller.nodeHash && cast(dst, *types.TreeNode).Left == rhtL(caller.t)[caller.nodeHash] && cast(dst, *types.TreeNode).Right == rhtR(caller.t)[caller.nodeHash] && caller.nodeHash == H(cast(dst, *types.TreeNode).Left, cast(dst, *types.TreeNode).Right)
 //@   ensures (result != nil && isErr(result, sql.ErrNoRows)) ==> !rhtHas(caller.t)[caller.nodeHash]
 //@   ensures (result != nil && !isErr(result, sql.ErrNoRows)) ==> !isErr(result, errvar("db.ErrNotFound"))
-//@ func (t *Tree) getRHTNode
+//@ func (t *Tree) getRHTNode (t, tx, nodeHash)
 //@   props C01 C08 C11
 //@   definitional
 //@   assert call:QueryRow arg0 == tx && typeIs(arg1, *types.TreeNode) && cast(arg1, *types.TreeNode) == node
@@ -67,7 +67,7 @@ package tree
 //@   ensures (result1 != nil && isErr(result1, db.ErrNotFound)) ==> !rhtHas(t)[nodeHash]
 //@   ensures plainErr(result1)
 
-//@ func (t *Tree) GetLeaf
+//@ func (t *Tree) GetLeaf (t, tx, index, root)
 //@   props C08
 //@   requires t != nil
 //@   ensures[leaf] result1 == nil ==> result0 == desc(rhtL(t), rhtR(t), root, index, 0)
@@ -75,7 +75,7 @@ package tree
 //@   ensures[never-the-syncers-inconsistency-error] plainErr(result1)
 //@   loop 0 unroll 32
 
-//@ func (t *Tree) getSiblings
+//@ func (t *Tree) getSiblings (t, tx, index, root)
 //@   props C08 C09 C12
 //@   requires t != nil && len(t.zeroHashes) == 33
 //@   ensures[proof-verifies] (err == nil && !hasUsedZeroHashes) ==> foldUp(desc(rhtL(t), rhtR(t), root, index, 0), siblings, index, 32) == root
@@ -144,7 +144,7 @@ package tree
 //@   ensures result != nil ==> rootHas(caller.t) == old(rootHas(caller.t)) && rootHash(caller.t) == old(rootHash(caller.t)) && rootBlock(caller.t) == old(rootBlock(caller.t)) && rootPos(caller.t) == old(rootPos(caller.t)) && rootLastIdx(caller.t) == old(rootLastIdx(caller.t))
 // which row the ORDER BY block_num, block_position of getLastRootWithTx ranks last afterwards: the old one or the new one
 //@   ensures result == nil ==> rootLastIdx(caller.t) == old(rootLastIdx(caller.t)) || rootLastIdx(caller.t) == cast(src, *types.Root).Index
-//@ func (t *Tree) storeRoot
+//@ func (t *Tree) storeRoot (t, tx, root)
 //@   props C01 C07 C11
 //@   assert call:Insert arg0 == tx && arg1 == t.rootTable
 //@   requires t != nil
@@ -169,7 +169,7 @@ package tree
 //@   ensures (result != nil && isUniqueErr(result)) ==> old(rhtHas(caller.t))[cast(src, *types.TreeNode).Hash]
 //@   ensures result != nil ==> rhtHas(caller.t) == old(rhtHas(caller.t)) && rhtL(caller.t) == old(rhtL(caller.t)) && rhtR(caller.t) == old(rhtR(caller.t))
 
-//@ func (t *Tree) storeNodes
+//@ func (t *Tree) storeNodes (t, tx, nodes)
 //@   props C01 C04 C07 C08 C09 C11 C12
 //@   requires t != nil
 //@   requires forall(k, 0, len(nodes), nodes[k].Hash == H(nodes[k].Left, nodes[k].Right))
@@ -195,7 +195,7 @@ package tree
 //@   ensures (result != nil && isErr(result, sql.ErrNoRows)) ==> rootLastIdx(caller.t) == -1
 //@   ensures (result != nil && !isErr(result, sql.ErrNoRows)) ==> !isErr(result, errvar("db.ErrNotFound"))
 //@   ensures result == nil ==> rootLastIdx(caller.t) >= 0 && cast(dst, *types.Root).Index == rootLastIdx(caller.t) && rootHas(caller.t)[cast(dst, *types.Root).Index] && cast(dst, *types.Root).Hash == rootHash(caller.t)[cast(dst, *types.Root).Index]
-//@ func (t *Tree) getLastRootWithTx
+//@ func (t *Tree) getLastRootWithTx (t, tx)
 //@   props C01 C04 C07 C08 C11
 //@   sqltext "SELECT * FROM %s ORDER BY block_num DESC, block_position DESC LIMIT 1;"
 //@   requires t != nil
@@ -204,7 +204,7 @@ package tree
 //@   ensures[never-the-syncers-inconsistency-error] plainErr(result1)
 //@   ensures[the-row-ranked-last] result1 == nil ==> rootLastIdx(t) >= 0 && result0.Index == rootLastIdx(t) && rootHas(t)[result0.Index] && result0.Hash == rootHash(t)[result0.Index]
 
-//@ func (t *Tree) GetLastRoot
+//@ func (t *Tree) GetLastRoot (t, tx)
 //@   props C07 C11 C14
 //@   requires t != nil
 //@   modifies nothing
@@ -226,7 +226,7 @@ package tree
 // Proved: a failed rebuild leaves the in-memory frontier exactly as it was; a successful rebuild over a root table
 // whose last row is the mirrored contract's current root (index = deposit count - 1) yields exactly the contract's
 // frontier at every level the next append reads (the levels where the next index has a one bit).
-//@ func (t *AppendOnlyTree) initCache
+//@ func (t *AppendOnlyTree) initCache (t, tx)
 //@   props C01 C07 C08
 //@   requires t != nil && t.Tree != nil
 //@   modifies t.lastIndex, t.lastLeftCache
@@ -240,13 +240,13 @@ package tree
 //@   loop 0 invariant rootHash(t.Tree)[rootLastIdx(t.Tree)] == solRootI(solBranch(t), lastRoot.Index, 32) ==> forall(k, h + 1, 32, bitSucc(lastRoot.Index, k) ==> siblings[k] == solBranch(t)[k])
 //@   loop 1 unroll 1
 
-//@ func (t *AppendOnlyTree) AddLeaf$1
+//@ func (t *AppendOnlyTree) AddLeaf$1 ()
 //@   props C07 C01 C08
 //@   requires t != nil
 //@   modifies t.lastIndex
 //@   ensures[undo-step] t.lastIndex == undoStep(old(t.lastIndex))
 
-//@ func (t *AppendOnlyTree) AddLeaf
+//@ func (t *AppendOnlyTree) AddLeaf (t, tx, blockNum, blockPosition, leaf)
 //@   props C01 C07 C08
 //@   requires t != nil && t.Tree != nil && tx != nil
 //@   requires rhtOK(rhtHas(t.Tree), rhtL(t.Tree), rhtR(t.Tree))
@@ -291,7 +291,7 @@ package tree
 
 // second behaviour of AddLeaf: any state of the in-memory frontier (first leaf after a start, after a reorg or a
 // rollback: the frontier is rebuilt first). Only the transaction-level effects are stated here.
-//@ func (t *AppendOnlyTree) AddLeaf
+//@ func (t *AppendOnlyTree) AddLeaf (t, tx, blockNum, blockPosition, leaf)
 //@   behavior any
 //@   props C07 C08 C14
 //@   requires t != nil && t.Tree != nil && tx != nil && len(t.zeroHashes) == 33
@@ -318,7 +318,7 @@ package tree
 // reads back the new value. leafNow is the ghost view of the current leaf values.
 //@ ghost field leafNow map[int]Hash
 //@ ghost var upsertCalls int
-//@ func (t *UpdatableTree) UpsertLeaf
+//@ func (t *UpdatableTree) UpsertLeaf (t, tx, blockNum, blockPosition, leaf)
 //@   props C11 C07
 //@   requires t != nil && t.Tree != nil && tx != nil && len(t.zeroHashes) == 33
 //@   requires rhtOK(rhtHas(t.Tree), rhtL(t.Tree), rhtR(t.Tree))
@@ -345,7 +345,7 @@ package tree
 //@   ensures result1 == nil ==> forall(i, int, rootHas(caller.t)[i] == (old(rootHas(caller.t))[i] && rootBlock(caller.t)[i] < caller.firstReorgedBlock))
 //@   ensures result1 != nil ==> rootHas(caller.t) == old(rootHas(caller.t))
 
-//@ func (t *Tree) Reorg
+//@ func (t *Tree) Reorg (t, tx, firstReorgedBlock)
 //@   props C04
 //@   sqltext "DELETE FROM %s WHERE block_num >= $1"
 //@   requires t != nil && tx != nil
@@ -364,7 +364,7 @@ package tree
 //@   ensures result != errvar("db.ErrNotFound") && ((result != nil && !isErr(result, sql.ErrNoRows)) ==> !isErr(result, errvar("db.ErrNotFound")))
 //@   ensures rootLookupNoRows == (result != nil && isErr(result, sql.ErrNoRows))
 //@   ensures result == nil ==> cast(dst, *types.Root).Index == caller.index && rootHas(caller.t)[caller.index] && cast(dst, *types.Root).Hash == rootHash(caller.t)[caller.index]
-//@ func (t *Tree) GetRootByIndex
+//@ func (t *Tree) GetRootByIndex (t, ctx, index)
 //@   props C08 C09 C12
 //@   requires t != nil
 //@   modifies rootLookupNoRows
@@ -380,7 +380,7 @@ package tree
 //@   ensures result != errvar("db.ErrNotFound") && ((result != nil && !isErr(result, sql.ErrNoRows)) ==> !isErr(result, errvar("db.ErrNotFound")))
 //@   ensures rootLookupNoRows == (result != nil && isErr(result, sql.ErrNoRows))
 //@   ensures result == nil ==> cast(dst, *types.Root).Hash == caller.hash
-//@ func (t *Tree) GetRootByHash
+//@ func (t *Tree) GetRootByHash (t, ctx, hash)
 //@   props C08 C12
 //@   requires t != nil
 //@   modifies rootLookupNoRows
@@ -396,7 +396,7 @@ package tree
 // which is the case for every position present under a recorded root (storeNodes stores the whole path) - the proof
 // folds from the leaf reached by that path to exactly the requested root. (When a path node is not stored the function
 // answers with zero-hash siblings and no error: that case is outside the property's quantifier and is not claimed.)
-//@ func (t *Tree) GetProof
+//@ func (t *Tree) GetProof (t, ctx, index, root)
 //@   props C08 C09 C12
 //@   requires t != nil && len(t.zeroHashes) == 33
 //@   ensures[served-proof-verifies-when-the-path-is-stored] (result1 == nil && forall(h, 1, 33, rhtHas(t)[desc(rhtL(t), rhtR(t), root, index, h)])) ==> foldUp(desc(rhtL(t), rhtR(t), root, index, 0), result0, index, 32) == root
